@@ -379,6 +379,31 @@ def oracle_l3(chk, est, X, p, Kmat, fresh, replay, calls=()):
         if c["gain"] > 0 and c["leaf"] not in c["queue"]:
             fl("split:leaf-not-explorable", f"split #{j} splits leaf {c['leaf']} outside leaves_to_explore {c['queue']}")
             ok = False
+    # --- the split find_best_split announced, the node stored in the tree and the partition applied are the same thing
+    j = 0
+    for c in calls:
+        if not c["gain"] > 0:
+            continue
+        fathers = [a for a in internal if tr.children_left[a] == 2 * j + 1]
+        if len(fathers) != 1 or tr.children_right[fathers[0]] != 2 * j + 2:
+            fl("split:stored-node", f"split #{j} did not create the node pair ({2 * j + 1}, {2 * j + 2}) under one father")
+            ok = False
+            break
+        a = fathers[0]
+        if tr.features[a] != c["feature"] or not (tr.thresholds[a] == c["threshold"]) or not (tr.gains[a] == c["gain"]) \
+                or tr.target[2 * j + 1] != c["left"] or tr.target[2 * j + 2] != c["right"]:
+            fl("split:recorded-vs-stored", f"split #{j}: find_best_split returned feature {c['feature']} threshold {c['threshold']!r} gain {c['gain']!r} "
+                                           f"targets ({c['left']}, {c['right']}) but node {a} stores feature {tr.features[a]} threshold {tr.thresholds[a]!r} "
+                                           f"gain {tr.gains[a]!r} targets ({tr.target[2 * j + 1]}, {tr.target[2 * j + 2]})")
+            ok = False
+        at_father = [i for i in range(n) if a in paths[i]]
+        announced_left = sorted(i for i in at_father if X[i, c["feature"]] <= c["threshold"])
+        stored_left = sorted(i for i in at_father if (2 * j + 1) in paths[i])
+        if announced_left != stored_left or not (p["min_samples_leaf"] <= len(stored_left) <= len(at_father) - p["min_samples_leaf"]):
+            fl("split:partition", f"split #{j} (node {a}): rows sent left by the stored tree {stored_left} are not the rows at or below the announced "
+                                  f"threshold {c['threshold']!r} {announced_left} (node holds {len(at_father)} rows, min_samples_leaf={p['min_samples_leaf']})")
+            ok = False
+        j += 1
     # --- each leaf one cluster, leaves_ / labels_ bookkeeping, predict reproduces labels_
     leaf_node = np.array([q[-1] for q in paths])
     pred = est.predict(X)
@@ -412,7 +437,8 @@ def oracle_l3(chk, est, X, p, Kmat, fresh, replay, calls=()):
             idx = np.where(yp == k)[0]
             ref += Kfull[np.ix_(idx, idx)].sum() / len(idx)
         sc = float(est.score(A, Kk))
-        if not abs(sc - ref) <= 1e-9 * (1 + float(np.abs(Kfull).sum())):
+        same_nonfinite = (np.isnan(sc) and np.isnan(ref)) or (np.isinf(sc) and sc == ref)      # overflowing kernels: both sides overflow alike
+        if not same_nonfinite and not abs(sc - ref) <= 1e-9 * (1 + float(np.abs(Kfull).sum())):
             fl("score:objective", f"score on {tag} data = {sc!r} but the kernel-KMeans objective of the predicted labels is {ref!r}")
             ok = False
     return ok
@@ -423,15 +449,54 @@ def describe(p):
     return {k: p[k] for k in ("max_clusters", "max_depth", "min_samples_split", "min_samples_leaf", "max_features", "max_leaves", "kernel", "random_state")}
 
 
-def one_case(chk, rng, style, X, p, Kmat, fresh=None):
+def same_bits(a, b):
+    a, b = np.asarray(a), np.asarray(b)
+    return a.dtype == b.dtype and a.shape == b.shape and a.tobytes() == b.tobytes()
+
+
+def tree_sig(est):
+    t = est.tree_
+    return (list(map(int, t.children_left)), list(map(int, t.children_right)), list(t.features), list(t.thresholds), list(map(int, t.target)),
+            list(map(int, t.depths)), t.n_nodes, [int(v) for v in est.labels_], [int(v) for v in est.leaves_])
+
+
+def other_routes(chk, est, X, p, Kmat, fresh, replay):
+    """fit_predict has its own route to labels_; Kauri.predict goes through tree_.predict; score through predict."""
+    fp = impl.Kauri(**p).fit_predict(X.copy(), None if Kmat is None else Kmat.copy())
+    if [int(v) for v in fp] != [int(v) for v in est.labels_]:
+        chk.fail("route:fit_predict", f"fit_predict(X) = {fp.tolist()} differs from fit(X).labels_ = {est.labels_.tolist()}", replay, layer="L3")
+    again = impl.Kauri(**p).fit(X.copy(), None if Kmat is None else Kmat.copy())
+    if tree_sig(again) != tree_sig(est):
+        chk.fail("route:refit", "a second fit with the same random_state on a copy of the data gives another tree", replay, layer="L3")
+    f0 = fresh.copy()
+    a, b = est.predict(fresh), est.tree_.predict(fresh)
+    if not np.array_equal(a, b) or not same_bits(fresh, f0):
+        chk.fail("route:predict", "Kauri.predict differs from tree_.predict on fresh rows, or modified them", dict(replay, fresh=f0.tolist()), layer="L3")
+    chk.dist["routes-checked"] += 1
+
+
+def one_case(chk, rng, style, X, p, Kmat, fresh=None, routes=False):
     n, d = X.shape
     replay = {"X": X.tolist(), "params": describe(p), "K": None if Kmat is None else Kmat.tolist()}
+    X0, K0 = X.copy(), None if Kmat is None else Kmat.copy()
     est, calls = run_fit(X, p, Kmat)
     thresholds = [(est.tree_.features[a], est.tree_.thresholds[a]) for a in range(est.tree_.n_nodes) if est.tree_.features[a] is not None]
     if fresh is None:
         fresh = fresh_points(rng, X, thresholds)
+    if style.startswith("adv:"):
+        with np.errstate(over="ignore"):
+            if any(np.nextafter(th, np.inf) in X[:, f] for f, th in thresholds):
+                chk.dist["adversarial:cut-between-adjacent-doubles"] += 1
+            if any(not np.isfinite(th + X[:, f][X[:, f] > th].min()) for f, th in thresholds if (X[:, f] > th).any()):
+                chk.dist["adversarial:cut-with-overflowing-midpoint"] += 1
+            if any(abs(th) < 2.3e-308 for f, th in thresholds):
+                chk.dist["adversarial:cut-at-zero-or-denormal"] += 1
     ok3 = oracle_l3(chk, est, X, p, Kmat, fresh, replay, calls)
     r2 = compare_l2(chk, est, X, p, Kmat, calls, fresh, replay)
+    if routes:
+        other_routes(chk, est, X, p, Kmat, fresh, replay)
+    if not same_bits(X, X0) or (Kmat is not None and not same_bits(Kmat, K0)):
+        chk.fail("args:modified", "fit / predict / score modified the caller's X or kernel", replay, layer="L3")
     nsplit = sum(1 for c in calls if c["gain"] > 0)
     tr = est.tree_
     nleaves = nsplit + 1
@@ -514,7 +579,205 @@ def stream_malformed(chk, i, rng):
     chk.count(None)
 
 
-STREAMS = {"fit": (stream_fit, 2000, 24000), "tight": (stream_tight, 1000, 13000), "malformed": (stream_malformed, 100, 1200)}
+# ------------------------------------------------------------------ adversarial floats, boundary limits (round-3 lessons, family 2 and 3)
+def adversarial_column(rng, n, kind):
+    x0 = float(rng.choice([0.3, 1.0, -2.5, 1e-3, 123456.789, 1e16]))
+    if kind == "adjacent":        # the cut may fall between two consecutive doubles
+        pool = [0.1, 0.2, 0.3, 0.1 + 0.2, 0.5, 0.6, x0, np.nextafter(x0, np.inf), np.nextafter(x0, -np.inf), np.nextafter(np.nextafter(x0, np.inf), np.inf)]
+    elif kind == "huge":          # sums / midpoints of two values overflow
+        pool = [1e300, -1e300, 1e300 * (1 + 2 ** -52), 8.9e307, 9.1e307, 1.7e308, -1.7e308, 0.0, 1.0]
+    elif kind == "denormal":      # denormals and the two zeros
+        pool = [5e-324, 1e-323, 1e-310, -5e-324, 0.0, -0.0, 2.2250738585072014e-308, 1.0]
+    else:                         # ties: few distinct values, many duplicates
+        pool = [x0, x0, np.nextafter(x0, np.inf), x0 + 1.0]
+    return np.array([pool[int(rng.integers(0, len(pool)))] for _ in range(n)], dtype=float)
+
+
+def stream_adversarial(chk, i, rng):
+    kind = ["adjacent", "huge", "denormal", "ties"][i % 4]
+    n = int(rng.integers(2, 13)) if i % 7 else 1
+    d = 1 if i % 3 == 0 else int(rng.integers(1, 4))
+    X = np.column_stack([adversarial_column(rng, n, kind if f == 0 or rng.random() < 0.5 else "ties") for f in range(d)])
+    # kernel: bounded precomputed ones (the feature values are only ever compared); blocks follow the order of feature 0 so that the
+    # best cut tends to sit between neighbouring values; sometimes asymmetric with negative entries; linear only for moderate magnitudes
+    kk = int(rng.integers(0, 4))
+    order = np.argsort(X[:, 0], kind="stable")
+    grp = np.empty(n, dtype=int)
+    grp[order] = (np.arange(n) * int(rng.integers(2, 4))) // max(n, 1)
+    if kk == 0 and kind in ("adjacent", "ties"):
+        kernel, Kmat = "linear", None
+    else:
+        kernel = "precomputed"
+        Kmat = np.where(grp[:, None] == grp[None, :], 1.0, -0.5) + 0.01 * np.eye(n)
+        if kk == 2:
+            A = np.round(rng.normal(size=(n, n)) * 4) / 8
+            Kmat = Kmat + (A + A.T) / 2
+        if kk == 3:
+            Kmat = Kmat + np.round(rng.normal(size=(n, n)) * 4) / 16        # asymmetric, negative entries
+    msl = int(rng.choice([1, 1, 2]))
+    msl = min(msl, n)
+    bnd = int(rng.integers(0, 6))       # limits sitting exactly on their boundary
+    p = dict(max_clusters=[1, 2, 3, n, n + 1, 4][bnd] or 1, max_depth=[None, 1, 2, None, None, 3][bnd], min_samples_split=max(2, 2 * msl),
+             min_samples_leaf=msl, max_features=[None, 1, d, d + 1, None, 1][bnd], max_leaves=[None, 2, None, max(2, n), n + 1, 3][bnd],
+             kernel=kernel, random_state=int(rng.integers(0, 10 ** 6)))
+    if bnd == 3:
+        p["min_samples_split"] = max(2, n, 2 * msl)             # root holds exactly min_samples_split rows (when n >= 2*min_samples_leaf)
+    if bnd == 4:
+        p["min_samples_leaf"], p["min_samples_split"] = 1, 2   # one sample per cluster is reachable
+    # fresh rows sitting on / next to every observed value, on midpoints of neighbours (may round onto a neighbour), far away
+    fr = []
+    for _ in range(int(rng.integers(4, 9))):
+        row = X[int(rng.integers(0, n))].copy()
+        for f in range(d):
+            u = np.unique(X[:, f])
+            v = float(u[int(rng.integers(0, len(u)))])
+            w = float(u[min(len(u) - 1, int(np.searchsorted(u, v)) + 1)])
+            with np.errstate(over="ignore"):
+                cand = [v, np.nextafter(v, np.inf), np.nextafter(v, -np.inf), (v + w) / 2, v / 2 + w / 2, -0.0, 0.0, 5e-324, 1e300, -1e300]
+            c = float(cand[int(rng.integers(0, len(cand)))])
+            row[f] = c if np.isfinite(c) else v
+        fr.append(row)
+    fresh = np.array(fr, dtype=float).reshape(len(fr), d)
+    chk.dist["adversarial:" + kind] += 1
+    chk.dist[f"adversarial:boundary={bnd}"] += 1
+    one_case(chk, rng, "adv:" + kind, np.ascontiguousarray(X), p, Kmat, fresh=fresh, routes=True)
+
+
+# ------------------------------------------------------------------ same values, other representation (round-3 lessons, family 1)
+# Corners where the UNCHANGED tree raises although the float64 reference call succeeds would be listed here as
+# (entry point, argument, representation) -> description: reported to the coordinator, recorded as observations (chk.notes), not failures.
+OBSERVED = {}      # the buffer-dtype / read-only corners found here (float32 data in score; float32, integer and read-only precomputed
+                   # kernels) were repaired in /repo by 70daa00: a representation that raises is a failure again
+
+
+def representations(A, rng, integral, binary, exact32):
+    """(name, object holding the same values as the float64 C-contiguous array A)"""
+    out = [("fortran", np.asfortranarray(A)), ("view", np.repeat(A, 2, axis=0)[::2]), ("colrev-view", A[:, ::-1].copy()[:, ::-1]),
+           ("list", A.tolist()), ("tuple", tuple(map(tuple, A.tolist())))]
+    ro = A.copy()
+    ro.setflags(write=False)
+    out.append(("readonly", ro))
+    if integral:
+        out += [("int64", A.astype(np.int64)), ("int32", A.astype(np.int32))]
+    if binary:
+        out.append(("bool", A.astype(bool)))
+    if exact32:
+        out.append(("float32", A.astype(np.float32)))
+    idx = rng.permutation(len(out))[:4]
+    return [out[j] for j in idx]
+
+
+def snapshot(v):
+    return (v.dtype, v.shape, v.tobytes(), v.flags.writeable) if isinstance(v, np.ndarray) else json.dumps(v)
+
+
+def unchanged(v, snap):
+    return snapshot(v) == snap
+
+
+def guarded(chk, entry, arg, name, fn, replay):
+    """run fn(); an exception is a failure unless it is one of the reported corners of the unchanged tree"""
+    try:
+        return True, fn()
+    except Exception as e:  # noqa
+        key = (entry, arg, name)
+        if key in OBSERVED:
+            chk.dist[f"observed:{entry}:{arg}:{name}"] += 1
+            note = f"observation (unchanged tree, reported): {OBSERVED[key]}"
+            if note not in chk.notes:
+                chk.notes.append(note)
+            return False, None
+        chk.fail(f"repr:{entry}:{arg}:{name}:exception", f"{entry} raises {type(e).__name__}: {e} when {arg} is given as {name} although the float64 call succeeds", replay, layer="L3")
+        return False, None
+
+
+def stream_repr(chk, i, rng):
+    n, d = int(rng.integers(4, 13)), int(rng.integers(1, 4))
+    binary = i % 5 == 0
+    integral = binary or i % 2 == 0
+    if binary:
+        X = (rng.random((n, d)) < 0.5).astype(float)
+    elif integral:
+        X = rng.integers(-3, 4, size=(n, d)).astype(float)
+    else:
+        X = rng.integers(-24, 25, size=(n, d)) / 8.0          # exactly representable in float32
+    X = np.ascontiguousarray(X)
+    kernel = ["linear", "precomputed", "rbf", "precomputed"][i % 4]
+    Kmat = None
+    kint = False
+    if kernel == "precomputed":
+        A = rng.integers(-8, 9, size=(n, n)).astype(float)
+        Kmat = A + A.T
+        kint = rng.random() < 0.5
+        if not kint:
+            Kmat = Kmat / 8.0
+    p = dict(max_clusters=int(rng.choice([2, 3, 4])), max_depth=None if rng.random() < 0.5 else int(rng.integers(1, 4)), min_samples_split=2,
+             min_samples_leaf=1, max_features=None, max_leaves=None, kernel=kernel, random_state=int(rng.integers(0, 10 ** 6)))
+    replay = {"X": X.tolist(), "params": describe(p), "K": None if Kmat is None else Kmat.tolist()}
+    ref = impl.Kauri(**p).fit(X, Kmat)
+    ref_sig, ref_pred, ref_score = tree_sig(ref), ref.predict(X).tolist(), float(ref.score(X, Kmat))
+    tol = 1e-12 * (1 + abs(ref_score))
+    # --- X in other representations: fit, fit_predict, predict, score
+    for name, V in representations(X, rng, integral, binary, True):
+        snap = snapshot(V)
+        rp = dict(replay, representation=name)
+        ok, est = guarded(chk, "fit", "X", name, lambda: impl.Kauri(**p).fit(V, Kmat), rp)
+        if ok and tree_sig(est) != ref_sig:
+            chk.fail(f"repr:fit:X:{name}", f"fit on the same values given as {name} gives another tree / labels_ / leaves_", rp, layer="L3")
+        ok, lab = guarded(chk, "fit_predict", "X", name, lambda: impl.Kauri(**p).fit_predict(V, Kmat), rp)
+        if ok and [int(v) for v in lab] != ref_sig[7]:
+            chk.fail(f"repr:fit_predict:X:{name}", f"fit_predict on the same values given as {name} gives other labels", rp, layer="L3")
+        ok, pr = guarded(chk, "predict", "X", name, lambda: ref.predict(V), rp)
+        if ok and pr.tolist() != ref_pred:
+            chk.fail(f"repr:predict:X:{name}", f"predict on the same values given as {name} gives other labels", rp, layer="L3")
+        ok, sc = guarded(chk, "score", "X", name, lambda: float(ref.score(V, Kmat)), rp)
+        # float32 rows: the linear kernel of multiples of 1/8 is exact; rbf is evaluated by scikit-learn in single precision
+        if ok and not abs(sc - ref_score) <= (1e-5 * (1 + abs(ref_score)) if (name == "float32" and kernel == "rbf") else tol):
+            chk.fail(f"repr:score:X:{name}", f"score on the same values given as {name} is {sc!r}, reference {ref_score!r}", rp, layer="L3")
+        if not unchanged(V, snap):
+            chk.fail(f"repr:args-modified:X:{name}", f"the caller's X ({name}) was modified", rp, layer="L3")
+        chk.dist["repr:X:" + name] += 1
+    # --- the precomputed kernel in other representations: fit, score
+    if Kmat is not None:
+        for name, V in representations(Kmat, rng, kint, False, True):
+            snap = snapshot(V)
+            rp = dict(replay, kernel_representation=name)
+            ok, est = guarded(chk, "fit", "K", name, lambda: impl.Kauri(**p).fit(X, V), rp)
+            if ok and tree_sig(est) != ref_sig:
+                chk.fail(f"repr:fit:K:{name}", f"fit with the same kernel values given as {name} gives another tree / labels_ / leaves_", rp, layer="L3")
+            ok, sc = guarded(chk, "score", "K", name, lambda: float(ref.score(X, V)), rp)
+            if ok and not abs(sc - ref_score) <= tol:
+                chk.fail(f"repr:score:K:{name}", f"score with the same kernel values given as {name} is {sc!r}, reference {ref_score!r}", rp, layer="L3")
+            if not unchanged(V, snap):
+                chk.fail(f"repr:args-modified:K:{name}", f"the caller's kernel ({name}) was modified", rp, layer="L3")
+            chk.dist["repr:K:" + name] += 1
+    # --- integer / bool / float32 query rows against a tree whose thresholds are fractional and negative
+    Xh = X - 0.5 if integral else X + 1 / 16
+    mh = impl.Kauri(**dict(p, kernel="linear")).fit(Xh)
+    Q = rng.integers(-3, 4, size=(int(rng.integers(3, 9)), d)).astype(float)
+    if binary:
+        Q = (Q > 0).astype(float)
+    refq = mh.predict(Q).tolist()
+    box = leaf_boxes(mh.tree_, d)
+    for j in range(len(Q)):     # independent reference: the leaf box containing the row
+        inside = [a for a, (b, _) in box[0].items() if all(b[f][0] < Q[j, f] <= b[f][1] for f in range(d))]
+        if len(inside) != 1 or mh.tree_.target[inside[0]] != refq[j]:
+            chk.fail("repr:predict:region", f"query row {Q[j].tolist()} is not labelled by the leaf region containing it", dict(replay, Q=Q.tolist()), layer="L3")
+    for name, V in representations(Q, rng, True, binary, True):
+        snap = snapshot(V)
+        rp = dict(replay, query=Q.tolist(), representation=name, thresholds=[t for t in mh.tree_.thresholds if t is not None])
+        ok, pr = guarded(chk, "predict", "X", name, lambda: mh.predict(V), rp)
+        if ok and pr.tolist() != refq:
+            chk.fail(f"repr:predict:Q:{name}", f"predict of integer-valued rows given as {name} differs from the float64 call (fractional thresholds)", rp, layer="L3")
+        if not unchanged(V, snap):
+            chk.fail(f"repr:args-modified:Q:{name}", f"the caller's query array ({name}) was modified", rp, layer="L3")
+        chk.dist["repr:Q:" + name] += 1
+    nsplit = sum(1 for a in ref.tree_.children_left if a != -1)
+    chk.count(("repr", n, d, kernel, integral, binary, nsplit) if nsplit >= 1 else None)
+
+
+STREAMS = {"fit": (stream_fit, 2000, 24000), "tight": (stream_tight, 1000, 13000), "malformed": (stream_malformed, 100, 1200),
+           "adversarial": (stream_adversarial, 160, 2400), "repr": (stream_repr, 60, 800)}
 
 
 def replay_case(chk, rp):
@@ -567,7 +830,7 @@ def main():
                     "each is checked admissible in the model state and replayed through the extracted model loop; tree arrays, labels_, leaves_, final loop state, "
                     "predict on training and fresh rows, score are compared (L2); every clause of the property is evaluated directly on tree_/labels_/predict/score "
                     "with an independent numpy router, leaf boxes and objective (L3). 'tight' draws limits that interact (root vs min_samples_split, depth 1-3, leaves 2-4); "
-                    "'malformed' draws contradictory limits that must be rejected. non-trivial = at least two splits, or a structural limit (not only gain<=0) stopped the fit; "
+                    "'malformed' draws contradictory limits that must be rejected. 'adversarial' feeds adjacent doubles, exact ties, 1e300 / overflow-prone, denormal and signed-zero feature values with limits sitting exactly on their boundary (K=1, K=n, one feature, n=1, max_depth/max_leaves reached exactly, root size = min_samples_split) through fit, fit_predict, predict, score with argument copies compared; 'repr' re-runs fit/fit_predict/predict/score on the same values as int64/int32/bool/float32/Fortran/views/read-only/lists/tuples (X, precomputed kernel, integer query rows against fractional thresholds) and requires identical results and untouched arguments. non-trivial = at least two splits, or a structural limit (not only gain<=0) stopped the fit; "
                     "distinct = distinct (n, d, parameters, #splits, binding limits)")
 
 
